@@ -133,9 +133,20 @@ fn check(case: &Case) -> Outcome {
             let mut sig = exp_sig.clone();
             let mut m2 = msg.clone();
             let l = sch.key_len();
-            match mutation % 10 {
+            match mutation % 11 {
                 0 => {}
                 1 => { let p = *pos as usize % (8 * sig.len()); sig[p / 8] ^= 1 << (p % 8); }
+                10 => {
+                    // one of the top bits of the last byte of S / of R / of the key (the bits above the scalar or coordinate
+                    // range: S + 2^k for k >= bits(L), the sign bit, the Ed448 padding byte), set or flipped
+                    let which = *pos as usize % 3;
+                    let bit = 0x80u8 >> (*val % 4);
+                    match which {
+                        0 => { let n = sig.len(); sig[n - 1] ^= bit; }
+                        1 => { sig[l - 1] ^= bit; }
+                        _ => { let n = pk.len(); pk[n - 1] ^= bit; }
+                    }
+                }
                 2 => { let p = *pos as usize % (8 * pk.len()); pk[p / 8] ^= 1 << (p % 8); }
                 3 => { if m2.m.is_empty() { m2.m.push(*val) } else { let p = *pos as usize % m2.m.len(); m2.m[p] ^= 1 | *val; } }
                 4 => { m2.ctx.push(*val); m2.ctx.truncate(255); if m2.ctx == msg.ctx { m2.ctx.clear(); } }
@@ -318,7 +329,7 @@ impl Property for C07 {
         let n = schemes()[c as usize].curve.order.clone();
         match kind {
             0 => (prop::collection::vec(any::<u8>(), l), msg_strategy()).prop_map(move |(seed, msg)| Case::Sign { c, seed, msg, mutation: 0, pos: 0, val: 0 }).boxed(),
-            1 => (prop::collection::vec(any::<u8>(), l), msg_strategy(), 1u8..10, any::<u16>(), any::<u8>()).prop_map(move |(seed, msg, mutation, pos, val)| Case::Sign { c, seed, msg, mutation, pos, val }).boxed(),
+            1 => (prop::collection::vec(any::<u8>(), l), msg_strategy(), 1u8..11, any::<u16>(), any::<u8>()).prop_map(move |(seed, msg, mutation, pos, val)| Case::Sign { c, seed, msg, mutation, pos, val }).boxed(),
             2 => (crate::gen::any_scalar(&n), crate::gen::any_scalar(&n), any::<u8>(), any::<u8>(), prop::sample::select(vec![0u8, 0, 0, 1]), msg_strategy())
                 .prop_map(move |(a, r, ta, tr, smod, msg)| Case::Torsion { c, a: a.to_bytes_le(), r: r.to_bytes_le(), ta, tr, smod, msg })
                 .boxed(),
